@@ -20,6 +20,8 @@ NO_UNWIND_KEYS = (
     "std::cmp::Ord::cmp", "std::cmp::PartialOrd::lt", "std::cmp::PartialEq::eq",
     "std::ops::Deref::deref", "std::ops::DerefMut::deref_mut",   # on Vec / ManuallyDrop: field access
     "std::thread::panicking",
+    "std::cmp::Ordering::is_lt", "std::cmp::Ordering::is_le", "std::cmp::Ordering::is_gt", "std::cmp::Ordering::is_ge",
+    "std::cmp::Ordering::is_eq", "std::cmp::Ordering::is_ne",
 )
 
 
@@ -349,6 +351,8 @@ def _no_unwind(env, b, bb, T, trail=()):
         return True
     if c.key in NO_UNWIND_KEYS:
         return True
+    if c.key == "std::bool::then_some" and [(g.get("s") if isinstance(g, dict) else str(g)) for g in c.gargs] in (["usize"], ["bool"], ["u64"], ["u32"]):
+        return True  # selection between Some(v) and None; dropping an unused integer cannot unwind
     # crate functions whose bodies contain only such calls and no drops of user values / asserts
     d = env.F.resolve_callee(c, env.F.impl_self_adt(b), env._bind(b, T.world) if T.ok else None)
     if d and d not in trail and d in env.F.bodies:
